@@ -164,7 +164,7 @@ Proof.
     apply safe_bind; [apply ra_options_total; [exact Hw|exact Hf]|].
     intros _ _. acc28 Hw. rewrite !be32_at_ok by (unfold wf in Hw; lia). cbn [bind]. sdone. }
   destruct (nth 0 (arr p) 0 =? 133).
-  { apply when_safe. acc28 Hw. destruct (Nat.ltb_spec (len p) 16); [sdone|]. acc28 Hw. sif; acc28 Hw; sdone. }
+  { apply when_safe. acc28 Hw. apply Hlla. }
   destruct (nth 0 (arr p) 0 =? 129); [apply when_safe, echo_fastlog_safe; assumption|].
   destruct (nth 0 (arr p) 0 =? 128); [apply when_safe, echo_fastlog_safe; assumption|].
   destruct (nth 0 (arr p) 0 =? 137).
